@@ -41,6 +41,9 @@ type pausePoint struct {
 type apiCase struct {
 	Sc     *Scenario    `json:"sc"`
 	Pauses []pausePoint `json:"pauses"`
+	// Race: the text of a race-detector report from the free-running soak (not a schedule: the
+	// way to "replay" it is to run the soak again under the race detector)
+	Race string `json:"race,omitempty"`
 }
 
 // heightState is what the API may show for a committed height.
@@ -550,7 +553,13 @@ func TestC18(t *testing.T) {
 	st := NewStats("C18")
 	defer st.Flush()
 	var rc apiCase
-	if loadReplay(t, &rc) {
+	soakOnly := false
+	if loadReplay(t, &rc) && rc.Sc == nil {
+		if rc.Race == "" {
+			t.Fatalf("harness: replay file holds neither a schedule nor a race report")
+		}
+		soakOnly = true
+	} else if rc.Sc != nil {
 		dir, done := caseDir()
 		defer done()
 		states, _, ref, err := referenceStates(rc.Sc, dir+"/ref")
@@ -569,9 +578,14 @@ func TestC18(t *testing.T) {
 		}
 		return
 	}
-	RunProbes(st, "C18")
+	if !soakOnly {
+		RunProbes(st, "C18")
+	}
 	knownSeen := map[string]int{}
 	t.Run("schedules", func(t *testing.T) {
+		if soakOnly {
+			t.Skip("replaying a race report: soak only")
+		}
 		rapid.Check(t, func(rt *rapid.T) {
 			var sc *Scenario
 			if rapid.Bool().Draw(rt, "pip10") {
